@@ -1,5 +1,173 @@
-import Spec.Rev
-import Model.Rev.Heads
-/-! # C16 (theorems: work in progress) -/
+import Lemmas.Rev.ResolveFacts
+import Props.C15
+/-!
+# C16 — revision identifiers resolve to the right revision or fail loudly
+
+About `Model.Rev.getRevisions` / `getRevision` / `revisionForIdent` (mirror of
+`RevisionMap.get_revisions`, `get_revision`, `_resolve_revision_number`,
+`_revision_for_ident`).  Relative forms and `label@…` are covered by the correspondence and the
+Lean oracles `Spec.Rev.stepsDown` / `downLineage`; the theorems here are about plain
+identifiers and the symbolic names.
+-/
 namespace C16
+open Model.Rev Spec.Rev Lemmas.Rev
+
+/-- a plain identifier: no `@`, not one of the symbolic names -/
+def Plain (s : String) : Prop := '@' ∉ s.toList ∧ s ≠ "heads" ∧ s ≠ "head" ∧ s ≠ "base"
+
+theorem load_labelKeys {h : Hist} {o : LoadOpts} {m : LMap} (hl : load h o = .ok m) :
+    ∀ e ∈ m.labelKeys, e.2 ∈ m.ids := by
+  obtain ⟨m1, lk, h1, hrevs, hlk, hchk, hdc, hids, _⟩ := load_graph hl
+  obtain ⟨m1', h1', _, hm⟩ := load_ok hl
+  have : m1' = m1 := by rw [h1] at h1'; exact (Except.ok.inj h1').symm
+  subst this
+  obtain ⟨lk', hlk', _, hrevs', hlkeq⟩ := phase1_ok h1
+  obtain ⟨f3, hk3, hn3, hm3⟩ := addBranches_eq (withNorm o m1')
+  have hL : m.labelKeys = m1'.labelKeys := by rw [hm, hm3]; rfl
+  have hids1 : m1'.ids = h.map (·.id) := by
+    simp [LMap.ids, hrevs', phase1Revs, List.map_map, Function.comp_def]
+  intro e he
+  rw [hL, hlkeq] at he
+  rw [hids, hids1]
+  exact mapBranchLabels_vals (h.map (·.id)) _ [] lk'
+    (fun r hr => List.mem_map.mpr ⟨r, (List.mem_filter.mp hr).1, rfl⟩) (by simp) hlk' e he
+
+theorem resolveNumber_plain (m : LMap) (n : Nat) (s : String) (hp : Plain s) :
+    resolveRevisionNumber m (n + 1) s = .ok ([s], none) := by
+  unfold resolveRevisionNumber
+  simp only [splitFirstAt_noat s hp.1, bind, Except.bind, pure, Except.pure]
+  simp [hp.2.1, hp.2.2.1, hp.2.2.2]
+
+/-- **A full revision id resolves to that revision.** -/
+theorem full_id (m : LMap) (i : Id) (hi : i ∈ m.ids) (hp : Plain i) :
+    getRevisions m i = .ok [some i] ∧ getRevision m i = .ok (some i) := by
+  constructor
+  · unfold getRevisions resolveFuel
+    simp [resolveNumber_plain m 11 i hp, revisionForIdent_id m 11 i hi, bind, Except.bind, pure, Except.pure]
+  · unfold getRevision resolveFuel
+    simp [resolveNumber_plain m 11 i hp, revisionForIdent_id m 11 i hi, bind, Except.bind]
+
+/-- **What a plain identifier can resolve to.** If `get_revisions(ident)` succeeds for a plain
+identifier, the result is one revision `x`, and either `ident` is a key of the map for `x` (its
+full id, or a branch label carried by `x`), or `ident` is a prefix of `x`'s id and of no other
+revision id of four or more characters. -/
+theorem plain_sound {h : Hist} {o : LoadOpts} {m : LMap} (hl : load h o = .ok m)
+    (ident : String) (hp : Plain ident) (rs : List (Option Id)) (hr : getRevisions m ident = .ok rs) :
+    ∃ x, rs = [some x] ∧
+      (m.lookup ident = some x ∨
+        (x ∈ m.ids ∧ startsWithL x ident = true ∧
+          ∀ y ∈ m.ids, y.length > 3 → startsWithL y ident = true → y = x)) := by
+  unfold getRevisions resolveFuel at hr
+  simp only [resolveNumber_plain m 11 ident hp, bind, Except.bind, List.mapM_cons, List.mapM_nil, pure, Except.pure] at hr
+  cases hq : revisionForIdent m 12 ident none with
+  | error e => simp [hq] at hr
+  | ok v =>
+    simp only [hq] at hr
+    cases v with
+    | none =>
+      -- `_revision_for_ident` of a plain string never answers `None`
+      exfalso
+      unfold revisionForIdent at hq
+      simp only [bind, Except.bind, pure, Except.pure] at hq
+      split at hq
+      · simp at hq
+      · split at hq
+        · simp [throw, throwThe, MonadExceptOf.throw] at hq
+        · split at hq
+          · simp at hq
+          · simp [throw, throwThe, MonadExceptOf.throw] at hq
+        · simp [throw, throwThe, MonadExceptOf.throw] at hq
+    | some x =>
+      have hrs : rs = [some x] := by simpa using hr.symm
+      refine ⟨x, hrs, ?_⟩
+      rcases revisionForIdent_sound m (load_labelKeys hl) 11 ident x hq with h1 | ⟨_, h2, h3, _, h5⟩
+      · exact Or.inl h1
+      · exact Or.inr ⟨h2, h3, h5⟩
+
+/-- the full statement of the prefix rule: unique among *all* revision ids -/
+def prefix_unique_statement : Prop :=
+  ∀ (h : Hist) (o : LoadOpts) (m : LMap), load h o = .ok m →
+    ∀ (ident : String), Plain ident → ∀ x, getRevisions m ident = .ok [some x] → m.lookup ident = none →
+      ∀ y ∈ m.ids, startsWithL y ident = true → y = x
+
+def f13 : Hist := [⟨"1111", [], [], []⟩, ⟨"1a", [], [], []⟩]
+
+/-- everything the counterexample needs, as one kernel-evaluated Boolean -/
+def f13check : Bool :=
+  match load f13 {} with
+  | .error _ => false
+  | .ok m =>
+    (match getRevisions m "1" with | .ok [some x] => x == "1111" | _ => false) &&
+    (m.lookup "1").isNone && decide ("1a" ∈ m.ids) && startsWithL "1a" "1"
+
+theorem f13check_true : f13check = true := by decide +kernel
+
+/-- **Known finding F13**: ids shorter than four characters are invisible to the partial lookup:
+`1` resolves to `1111` although `1a` starts with `1` as well. -/
+theorem prefix_unique_counterexample : ¬ prefix_unique_statement := by
+  intro hst
+  have hc := f13check_true
+  unfold f13check at hc
+  cases hl : load f13 {} with
+  | error e => simp [hl] at hc
+  | ok m =>
+    simp only [hl, Bool.and_eq_true, decide_eq_true_eq] at hc
+    obtain ⟨⟨⟨h1, h2⟩, h3⟩, h4⟩ := hc
+    have hg : getRevisions m "1" = .ok [some "1111"] := by
+      cases hq : getRevisions m "1" with
+      | error e => simp [hq] at h1
+      | ok rs =>
+        match rs, hq with
+        | [some x], hq => simp [hq] at h1; rw [h1]
+        | [], hq => simp [hq] at h1
+        | [none], hq => simp [hq] at h1
+        | _ :: _ :: _, hq => simp [hq] at h1
+    have hlk : m.lookup "1" = none := by
+      cases hq : m.lookup "1" with
+      | none => rfl
+      | some _ => simp [hq] at h2
+    have := hst f13 {} m hl "1" ⟨by decide, by decide, by decide, by decide⟩ "1111" hg hlk "1a" h3 h4
+    exact absurd this (by decide)
+
+/-- **The prefix rule at full strength when every revision id has at least four characters**
+(as Alembic's own generated ids do): a plain identifier that is not a key of the map resolves
+only to the unique revision whose id starts with it. -/
+theorem prefix_unique_partial {h : Hist} {o : LoadOpts} {m : LMap} (hl : load h o = .ok m)
+    (hlong : ∀ y ∈ m.ids, y.length > 3)
+    (ident : String) (hp : Plain ident) (x : Id) (hr : getRevisions m ident = .ok [some x])
+    (hk : m.lookup ident = none) :
+    x ∈ m.ids ∧ startsWithL x ident = true ∧ ∀ y ∈ m.ids, startsWithL y ident = true → y = x := by
+  obtain ⟨x', hx', hcase⟩ := plain_sound hl ident hp _ hr
+  have : x' = x := by simpa using hx'.symm
+  subst this
+  rcases hcase with h1 | ⟨h2, h3, h4⟩
+  · rw [hk] at h1; simp at h1
+  · exact ⟨h2, h3, fun y hy hs => h4 y hy (hlong y hy) hs⟩
+
+/-- **`heads` and `base`.** -/
+theorem symbolic_base (m : LMap) : getRevisions m "base" = .ok [] := by
+  unfold getRevisions resolveFuel resolveRevisionNumber
+  simp [splitFirstAt_noat "base" (by decide), bind, Except.bind, pure, Except.pure]
+
+theorem symbolic_heads {h : Hist} {o : LoadOpts} {m : LMap} (hl : load h o = .ok m) :
+    getRevisions m "heads" = .ok (m.realHeads.map some) := by
+  have hsub : ∀ x ∈ m.realHeads, x ∈ m.ids := by
+    intro x hx
+    rw [(load_heads hl).2.1] at hx
+    exact (List.mem_filter.mp hx).1
+  unfold getRevisions resolveFuel resolveRevisionNumber
+  simp only [splitFirstAt_noat "heads" (by decide), bind, Except.bind, pure, Except.pure]
+  simp only [if_true, beq_self_eq_true]
+  have key : ∀ (l : List Id), (∀ x ∈ l, x ∈ m.ids) →
+      l.mapM (fun i => revisionForIdent m 12 i none) = .ok (l.map some) := by
+    intro l
+    induction l with
+    | nil => intro _; rfl
+    | cons a r ih =>
+      intro hl'
+      simp only [List.mapM_cons, bind, Except.bind, pure, Except.pure,
+        revisionForIdent_id m 11 a (hl' a List.mem_cons_self), ih (fun x hx => hl' x (List.mem_cons_of_mem _ hx)),
+        List.map_cons]
+  exact key m.realHeads hsub
+
 end C16
